@@ -285,7 +285,7 @@ func (c *Ctx) checkOnlineCounter() {
 			ok, cnt := core.GuardedBy(f, at, gFg)
 			if ok && cnt[0] > 0 {
 				r.OK("C10.3-online-counter", construct, c.pos(at), "only for foreground sessions")
-			} else if c.readsField(f, c.field("server", "perSessionData", "muids")) || (f.Parent() != nil && c.readsField(f.Parent(), c.field("server", "perSessionData", "muids"))) {
+			} else if c.readsField(f, c.field("server", "perSessionData", "muids")) || (f.Parent() != nil && c.readsField(f.Parent(), c.field("server", "perSessionData", "muids"))) || c.readsFieldDeep(f, c.field("server", "perSessionData", "muids")) {
 				r.OK("C10.3-online-counter", construct+" [multiplexed users]", c.pos(at), "exception: per-user accounting of a multiplexing (cluster) session being dropped")
 			} else {
 				r.Fail("C10.3-online-counter", construct, c.pos(at), "the online counter is changed for a background session")
